@@ -161,7 +161,7 @@ Proof.
                     c_vars (get s1 h) = c_vars (get s h) /\ c_dfa (get s1 h) = []).
   { intros s1 [A B]. split; [exact A|congruence]. }
   destruct e; cbn [step]; cbn [touches] in Ht.
-  - apply R. unfold get. cbn [s_cfgs fst snd]. destruct (nth_app_new (s_cfgs s) ms h) as (_ & A & B & _). split; [exact A|exact B].
+  - apply R. unfold get. cbn [s_cfgs fst snd]. destruct (nth_app_new (s_cfgs s) (fperiod num den) h) as (_ & A & B & _). split; [exact A|exact B].
   - destruct (negb (valid_h s h0)); [auto|].
     assert (G : forall c', get (put s h0 c') h = get s h).
     { intros. rewrite get_put. rewrite Ht. reflexivity. }
@@ -268,7 +268,7 @@ Lemma cf_unset_preserved s e h : c_cf (get s h) = false ->
   c_cf (get (fst (fst (step s e))) h) = false.
 Proof.
   intros Hc He. destruct e; cbn [step].
-  - unfold get. cbn. pose proof (nth_app_new (s_cfgs s) ms h) as (_ & _ & _ & E). unfold get in Hc. congruence.
+  - unfold get. cbn. pose proof (nth_app_new (s_cfgs s) (fperiod num den) h) as (_ & _ & _ & E). unfold get in Hc. congruence.
   - destruct (negb (valid_h s h0)); [exact Hc|].
     destruct (ty =? 0); [|destruct (ty_known ty)]; cbn [fst snd]; put_cases; auto.
   - destruct (negb (valid_h s h0)); [exact Hc|].
@@ -326,7 +326,7 @@ Lemma step_extends s e h : touches h e = false ->
 Proof.
   intros Ht.
   destruct e; cbn [step]; cbn [touches] in Ht; try apply extends_refl.
-  - unfold get. cbn [s_cfgs fst snd]. destruct (nth_app_new (s_cfgs s) ms h) as (_ & A & B & _). now apply extends_eq.
+  - unfold get. cbn [s_cfgs fst snd]. destruct (nth_app_new (s_cfgs s) (fperiod num den) h) as (_ & A & B & _). now apply extends_eq.
   - destruct (negb (valid_h s h0)); [apply extends_refl|].
     assert (G : forall c', get (put s h0 c') h = get s h).
     { intros. rewrite get_put. rewrite Ht. reflexivity. }
